@@ -15,6 +15,8 @@ real `Encode` produced) or `err` (Encode returned an error).
                                                e = id|name|props|listed|latency|gameMode|display|hat|listOrder|chat
                                                display = comp|_ ; chat = id,expiry,pub,sig | _
   rem <ids|_>                                  ids = uuid,uuid,…
+  pmseq <channel> <data> <p:sb,p:sb,…>         one *plugin.Message encoded for each step in turn (history);
+                                               impl-output = the step outputs joined by `;`
 (byte strings in hex, `-` = empty; integers decimal; booleans 0/1)
 
 model-output: the bytes of the model encoder (`ok <hex>` / `err`).
@@ -188,6 +190,27 @@ def step (c : Case) : String × String :=
        (showEnc (encPluginMessage p m),
         judge (decide (okPluginMessage p sb m)) c.impl (decPluginMessage p sb) (meantPluginMessage p m) sig)
      | _, _, _, _ => bad)
+  | "pmseq", [ch, data, steps] =>
+    -- the SAME packet object encoded for each `p:sb` step in turn; impl = outputs joined by `;`
+    (match parseHex ch, parseHex data,
+       (steps.splitOn ",").mapM (fun st => match st.splitOn ":" with
+          | [p, sb] => do pure ((← pInt p), (← pBool sb))
+          | _ => none) with
+     | some ch, some data, some sts =>
+       let m : PluginMessage := ⟨ch, data⟩
+       let outs := encHistory encPluginStep m (sts.map (·.1))
+       let impls := c.impl.splitOn ";"
+       let inDom := sts.all fun st => decide (okPluginMessage st.1 st.2 m)
+       let good := impls.length == sts.length &&
+         (List.zip sts impls).all fun (st, im) =>
+           match implBytes im with
+           | some b => okEq (decPluginMessage st.1 st.2 b) (meantPluginMessage st.1 m)
+           | none => false
+       let rewr := ";".intercalate ((encHistory encPluginStepRewriting m (sts.map (·.1))).map showEnc)
+       let sig := if c.impl = rewr then "plugin-message-object-rewritten" else "plugin-message-history"
+       (";".intercalate (outs.map showEnc),
+        if !inDom then "-" else if good then "ok" else "viol:" ++ sig)
+     | _, _, _ => bad)
   | "ups", [p, acts, ents] =>
     (match pInt p, pActs acts, (splitNE ents "/").mapM pEntry with
      | some p, some acts, some es =>
